@@ -1806,6 +1806,13 @@ class ContentDir(Dir):
     type_name = "redun.ContentDir"
     classes = ContentFileClasses()
 
+    def _calc_hash(self, files: Optional[list[File]] = None) -> str:
+        # Hash the members by content (ContentFile) instead of the filesystem's
+        # mtime-based pseudo-hash used by Dir.
+        if files is None:
+            files = list(self)
+        return hash_struct([self.type_basename, self.path] + sorted(file.hash for file in files))
+
 
 class ContentStagingFile(StagingFile):
     type_basename = "ContentStagingFile"
